@@ -23,14 +23,14 @@ def configs(kind, tier):
 
 
 def job(args):
-    kind, cfg, timeout = args
+    kind, cfg, timeout, budget = args
     import fpsym
     t0 = time.time()
     try:
         if kind == "visit":
-            recs = fpsym.explore_visit_float(cfg, z3_timeout=timeout)
+            recs = fpsym.explore_visit_float(cfg, z3_timeout=timeout, budget_s=budget)
         else:
-            recs = fpsym.explore_substitute_float(cfg, z3_timeout=timeout, mode=kind)
+            recs = fpsym.explore_substitute_float(cfg, z3_timeout=timeout, mode=kind, budget_s=budget)
         for r in recs:
             if r.get("model"):
                 if kind == "visit":
@@ -46,7 +46,8 @@ def job(args):
 def main():
     kind, tier = sys.argv[1], sys.argv[2]
     timeout = 120 if tier == "thorough" else 40
-    jobs = [(kind, c, timeout) for c in configs(kind, tier)
+    budget = 1800 if tier == "thorough" else 150
+    jobs = [(kind, c, timeout, budget) for c in configs(kind, tier)
             if not ("skip-f12" in sys.argv and kind == "narrow" and c[0] and c[3] is None)]
     with multiprocessing.Pool(min(12, len(jobs))) as pool:
         out = pool.map(job, jobs, chunksize=1)
